@@ -254,6 +254,7 @@ class Session:
                 log.ev("tie-refused", tie=k, err=type(e).__name__)
         # ---- bounds
         self.bounds = {}
+        self.in_temp = 0
         self.installed = set()  # names whose bound is installed according to the HISTORY (not read from the library)
         for b in spec["bounds"]:
             cands = [n for n in self.realnames if not n.endswith("i")]
@@ -834,6 +835,8 @@ class Session:
                     return  # temp_params inside a mask block: judged by the C17 check
                 cm = vm.temp_params(dict(params))
             with cm:
+                if k == "temp_block":
+                    self.in_temp += 1
                 if k == "mask_block":
                     self.mask = dict(params)  # the library replaces (does not merge) the mask
                 else:
@@ -843,14 +846,16 @@ class Session:
                 for b in op.get("body", []):
                     if b["k"] in ("set", "set_all_dict", "set_all_list", "set_trans_var", "set_all_fit", "minimize", "refresh", "bound_cycle", "bad_rebound"):
                         continue  # no assignments inside a block (the property does not say what a block must do with them)
-                    if b["k"] in COMPLEX_OPS and k != "mask_block":
-                        continue
+                    if b["k"] in COMPLEX_OPS and (k != "mask_block" or self.in_temp):
+                        continue  # a representation change inside a temp_params block is a permanent change of what it restores
                     self.run_op(b, depth + 1)
                 if op.get("raise"):
                     self.log.count("fault.user_raise_in_block")
                     raise UserRaise()
         except UserRaise as e:
             exc = e
+        if k == "temp_block":
+            self.in_temp -= 1
         if k == "mask_block":
             pass  # nothing was assigned inside; coordinate switches updated self.val for the switched components
         else:
